@@ -129,7 +129,12 @@ pub fn write_event(
     logger_key: &str,
 ) {
     let event_message = if message.len() > MAX_MESSAGE_LENGTH {
-        message[..MAX_MESSAGE_LENGTH].to_string()
+        // cut at a char boundary, slicing inside a multi-byte character panics
+        let mut end = MAX_MESSAGE_LENGTH;
+        while !message.is_char_boundary(end) {
+            end -= 1;
+        }
+        message[..end].to_string()
     } else {
         message.to_string()
     };
